@@ -223,6 +223,9 @@ func instrumentPackage(fset *token.FileSet, imp types.Importer, pj pkgJob, overl
 				if pkg.Name() == "varlink" && fd.Recv == nil && fd.Name.Name == "listen" {
 					r.listenHook(fd)
 				}
+				if pkg.Name() == "varlink" && fd.Recv == nil && fd.Name.Name == "activationListener" {
+					r.activationHook(fd)
+				}
 			}
 		}
 		if r.rewriteTime(af) {
@@ -496,6 +499,25 @@ func (r *rw) listenHook(fd *ast.FuncDecl) {
 	e, err := parser.ParseExpr(src)
 	if err != nil {
 		fatal(2, "vinstr: listen hook: %v", err)
+	}
+	pro := e.(*ast.FuncLit).Body.List
+	fd.Body.List = append(pro, fd.Body.List...)
+	r.used = true
+}
+
+// activationHook makes the package's activationListener() consult vsched.ActivationHook first: a socket-activated
+// start with a controlled listener as the inherited socket.
+func (r *rw) activationHook(fd *ast.FuncDecl) {
+	if fd.Type.Params.NumFields() != 0 || fd.Type.Results == nil || fd.Type.Results.NumFields() != 1 {
+		return
+	}
+	if sel, ok := fd.Type.Results.List[0].Type.(*ast.SelectorExpr); !ok || sel.Sel.Name != "Listener" {
+		return
+	}
+	src := "func() { if vsched.ActivationHook != nil { if vxl := vsched.ActivationHook(); vxl != nil { return vxl.(net.Listener) } } }"
+	e, err := parser.ParseExpr(src)
+	if err != nil {
+		fatal(2, "vinstr: activation hook: %v", err)
 	}
 	pro := e.(*ast.FuncLit).Body.List
 	fd.Body.List = append(pro, fd.Body.List...)
